@@ -68,12 +68,12 @@ fn c14_sleep_all_secs() {
     let secs: std::ffi::c_uint = kani::any();
     reset(kani::any());
     let r = sleep(None, secs);
-    assert!(r == 0, "sleep returns 0 after the full time");
+    kani::assert(r == 0, "sleep returns 0 after the full time");
     unsafe {
-        assert!(WAITS == 1 && !NONE_WAIT, "exactly one bounded wait");
-        assert!(LAST == Some(Duration::new(u64::from(secs), 0)), "sleep waits exactly the requested seconds");
+        kani::assert(WAITS == 1 && !NONE_WAIT, "exactly one bounded wait");
+        kani::assert(LAST == Some(Duration::new(u64::from(secs), 0)), "sleep waits exactly the requested seconds");
     }
-    assert!(errno() == 0);
+    kani::assert(errno() == 0, "errno() == 0");
     kani::cover!(secs == std::ffi::c_uint::MAX, "maximal sleep");
     kani::cover!(secs == 0, "zero sleep");
 }
@@ -86,13 +86,13 @@ fn c14_usleep_all_micros() {
     let us: std::ffi::c_uint = kani::any();
     reset(kani::any());
     let r = usleep(None, us);
-    assert!(r == 0);
+    kani::assert(r == 0, "r == 0");
     unsafe {
-        assert!(WAITS == 1 && !NONE_WAIT, "exactly one bounded wait");
+        kani::assert(WAITS == 1 && !NONE_WAIT, "exactly one bounded wait");
         let d = LAST.unwrap();
         // exact conversion checked by multiplication (no division in the oracle)
         let total = d.as_secs() * 1_000_000_000 + u64::from(d.subsec_nanos());
-        assert!(total == u64::from(us) * 1_000, "usleep waits exactly the requested microseconds");
+        kani::assert(total == u64::from(us) * 1_000, "usleep waits exactly the requested microseconds");
     }
     kani::cover!(us == std::ffi::c_uint::MAX, "maximal usleep");
     kani::cover!(us > 0 && us < 1_000, "sub-millisecond usleep");
@@ -117,20 +117,17 @@ fn c14_nanosleep_all_timespec() {
     let valid = sec >= 0 && nsec >= 0 && nsec <= 999_999_999;
     unsafe {
         if valid {
-            assert!(r == 0, "valid request returns 0");
-            assert!(WAITS == 1 && !NONE_WAIT);
-            assert!(
-                LAST == Some(Duration::new(sec as u64, nsec as u32)),
-                "nanosleep waits exactly the requested time"
-            );
+            kani::assert(r == 0, "valid request returns 0");
+            kani::assert(WAITS == 1 && !NONE_WAIT, "WAITS == 1 && !NONE_WAIT");
+            kani::assert(LAST == Some(Duration::new(sec as u64, nsec as u32)), "nanosleep waits exactly the requested time");
             if with_rm {
-                assert!(rm.tv_sec == 0 && rm.tv_nsec == 0, "remaining time is zero");
+                kani::assert(rm.tv_sec == 0 && rm.tv_nsec == 0, "remaining time is zero");
             }
-            assert!(errno() == 0);
+            kani::assert(errno() == 0, "errno() == 0");
         } else {
-            assert!(r == -1, "invalid timespec is rejected");
-            assert!(errno() == libc::EINVAL, "with EINVAL");
-            assert!(WAITS == 0, "without waiting");
+            kani::assert(r == -1, "invalid timespec is rejected");
+            kani::assert(errno() == libc::EINVAL, "with EINVAL");
+            kani::assert(WAITS == 0, "without waiting");
         }
     }
     kani::cover!(valid && sec == libc::time_t::MAX, "maximal seconds");
@@ -177,17 +174,14 @@ fn c14_poll_timeout_le_64ms() {
     let f: extern "C" fn(*mut libc::pollfd, libc::nfds_t, c_int) -> c_int = mock_poll;
     let mut fds = libc::pollfd { fd: 3, events: libc::POLLIN, revents: 0 };
     let r = poll(Some(&f), &raw mut fds, 1, t);
-    assert!(r == 0, "timed out => 0");
+    kani::assert(r == 0, "timed out => 0");
     unsafe {
-        assert!(!POLL_BAD_TIMEOUT, "kernel only probed with timeout 0");
-        assert!(!NONE_WAIT);
-        assert!(REQ_SECS == 0);
-        assert!(REQ_NANOS == (t as u64) * 1_000_000, "total requested wait equals the timeout");
-        assert!(VNOW - now0 >= (t as u64) * 1_000_000, "not earlier than the timeout");
-        assert!(
-            VNOW - now0 <= (t as u64) * 1_000_000 + u64::from(WAITS) * EPS_MAX,
-            "not later than the timeout plus bounded slack"
-        );
+        kani::assert(!POLL_BAD_TIMEOUT, "kernel only probed with timeout 0");
+        kani::assert(!NONE_WAIT, "!NONE_WAIT");
+        kani::assert(REQ_SECS == 0, "REQ_SECS == 0");
+        kani::assert(REQ_NANOS == (t as u64) * 1_000_000, "total requested wait equals the timeout");
+        kani::assert(VNOW - now0 >= (t as u64) * 1_000_000, "not earlier than the timeout");
+        kani::assert(VNOW - now0 <= (t as u64) * 1_000_000 + u64::from(WAITS) * EPS_MAX, "not later than the timeout plus bounded slack");
     }
     kani::cover!(t == 64, "largest timeout in bound");
     kani::cover!(t == 0, "zero timeout");
@@ -215,9 +209,9 @@ fn c14_poll_ready_returns_result() {
     let r = poll(Some(&f), &raw mut fds, 1, t);
     unsafe {
         if r == 1 {
-            assert!(POLL_CALLS == k + 1, "returned at the first ready probe");
+            kani::assert(POLL_CALLS == k + 1, "returned at the first ready probe");
         } else {
-            assert!(r == 0 && t >= 0, "only a finite timeout may end with 0");
+            kani::assert(r == 0 && t >= 0, "only a finite timeout may end with 0");
         }
     }
     kani::cover!(r == 1 && k == 3 && t == -1, "infinite poll ended by readiness");
@@ -261,40 +255,49 @@ fn select_case(sec: libc::time_t, usec: libc::suseconds_t, now0: u64) -> c_int {
     )
 }
 
-/// Nothing ready: select with a timeout of T microseconds (0 <= T <= 64_000) returns 0 after waiting
-/// at least T and at most T rounded up to the next millisecond (plus slack per wait). A unit error
-/// (microseconds used as milliseconds) is scale free and shows at any T >= 2.
+fn select_timeout_case(max_usec: libc::suseconds_t) {
+    let usec: libc::suseconds_t = kani::any();
+    kani::assume(0 <= usec && usec <= max_usec);
+    let now0: u64 = kani::any();
+    kani::assume(now0 < (1 << 62));
+    let r = select_case(0, usec, now0);
+    kani::assert(r == 0, "select: timed out => 0");
+    unsafe {
+        kani::assert(!SEL_BAD_TIMEOUT, "select: kernel only probed with a zero timeout");
+        kani::assert(!NONE_WAIT, "select: finite timeout never waits unbounded");
+        kani::assert(REQ_SECS == 0, "select: no whole seconds requested for a sub-second timeout");
+        let t_ns = (usec as u64) * 1_000;
+        kani::assert(REQ_NANOS >= t_ns, "select must not return earlier than the requested timeout");
+        kani::assert(REQ_NANOS < t_ns + 1_000_000, "select must not wait longer than the requested timeout rounded up to 1 ms");
+        kani::assert(VNOW - now0 <= t_ns + 1_000_000 + u64::from(WAITS) * EPS_MAX, "select: elapsed time bounded by timeout + slack");
+    }
+    kani::cover!(usec == max_usec, "largest timeout in bound");
+    kani::cover!(usec == 0, "zero timeout");
+    kani::cover!(usec > 0 && usec < 1_000, "sub-millisecond timeout");
+}
+
+/// Nothing ready: select with a timeout of T microseconds returns 0 after waiting at least T and at
+/// most T rounded up to the next millisecond. A unit error (microseconds used as milliseconds) is
+/// scale free: it shows for every T >= 2, so the first harness keeps T <= 64 (short loop, clean
+/// counterexample); the second covers every T up to 64 ms.
 #[kani::proof]
 #[kani::unwind(12)]
 #[kani::stub(crate::common::now, vnow)]
 #[kani::stub(crate::net::EventLoops::wait_event, wait_event_stub)]
 fn c14_select_timeout_unit() {
-    let usec: libc::suseconds_t = kani::any();
-    kani::assume((0..=64_000).contains(&usec));
-    let now0: u64 = kani::any();
-    kani::assume(now0 < (1 << 62));
-    let r = select_case(0, usec, now0);
-    assert!(r == 0, "timed out => 0");
-    unsafe {
-        assert!(!SEL_BAD_TIMEOUT, "kernel only probed with a zero timeout");
-        assert!(!NONE_WAIT);
-        assert!(REQ_SECS == 0);
-        let t_ns = (usec as u64) * 1_000;
-        assert!(REQ_NANOS >= t_ns, "select must not return earlier than the requested timeout");
-        assert!(
-            REQ_NANOS < t_ns + 1_000_000,
-            "select must not wait longer than the requested timeout rounded up to 1 ms"
-        );
-        assert!(VNOW - now0 <= t_ns + 1_000_000 + u64::from(WAITS) * EPS_MAX);
-    }
-    kani::cover!(usec == 64_000, "largest timeout in bound");
-    kani::cover!(usec == 999, "sub-millisecond timeout");
-    kani::cover!(usec == 0, "zero timeout");
+    select_timeout_case(64);
 }
 
-/// Whole seconds are honoured too: tv_sec = 1 waits at least 1000 ms (bounded run: tv_sec in {0,1},
-/// tv_usec = 0 costs 1+2+4+8+16*62 -> too many slices for an unrolled run, so only the conversion
-/// is observed: the first wait plus the remaining budget is checked through a ready-at-2nd-probe script).
+#[kani::proof]
+#[kani::unwind(12)]
+#[kani::stub(crate::common::now, vnow)]
+#[kani::stub(crate::net::EventLoops::wait_event, wait_event_stub)]
+fn c14_select_timeout_le_64ms() {
+    select_timeout_case(64_000);
+}
+
+/// Negative timeval fields are rejected with EINVAL (as the native call does) - never a panic inside
+/// the `extern "C"` function.
 #[kani::proof]
 #[kani::unwind(4)]
 #[kani::stub(crate::common::now, vnow)]
@@ -305,10 +308,10 @@ fn c14_select_invalid_timeval() {
     kani::assume(sec < 0 || usec < 0);
     kani::assume(sec >= -2 && sec <= 0 && usec >= -2 && usec <= 0);
     let r = select_case(sec, usec, 0);
-    assert!(r == -1, "a negative timeout is rejected");
-    assert!(errno() == libc::EINVAL, "with EINVAL as the native call does");
+    kani::assert(r == -1, "a negative timeout is rejected");
+    kani::assert(errno() == libc::EINVAL, "with EINVAL as the native call does");
     unsafe {
-        assert!(WAITS == 0);
+        kani::assert(WAITS == 0, "WAITS == 0");
     }
     kani::cover!(sec < 0, "negative seconds");
     kani::cover!(usec < 0, "negative microseconds");
@@ -363,15 +366,12 @@ fn c14_cond_timedwait_deadline() {
     let r = pthread_cond_timedwait(Some(&f), std::ptr::null_mut(), std::ptr::null_mut(), &raw const ts);
     unsafe {
         if valid {
-            assert!(r == libc::ETIMEDOUT, "nobody signalled => ETIMEDOUT");
-            assert!(VNOW >= deadline, "never returns before the deadline");
-            assert!(
-                VNOW <= deadline.max(now0) + u64::from(WAITS + COND_CALLS) * EPS_MAX,
-                "returns no later than the deadline plus bounded slack"
-            );
+            kani::assert(r == libc::ETIMEDOUT, "nobody signalled => ETIMEDOUT");
+            kani::assert(VNOW >= deadline, "never returns before the deadline");
+            kani::assert(VNOW <= deadline.max(now0) + u64::from(WAITS + COND_CALLS) * EPS_MAX, "returns no later than the deadline plus bounded slack");
         } else {
-            assert!(r == libc::EINVAL, "invalid timespec => EINVAL");
-            assert!(WAITS == 0 && COND_CALLS == 0);
+            kani::assert(r == libc::EINVAL, "invalid timespec => EINVAL");
+            kani::assert(WAITS == 0 && COND_CALLS == 0, "WAITS == 0 && COND_CALLS == 0");
         }
     }
     kani::cover!(valid && deadline > now0 + 20_000_000, "deadline needs several slices");
